@@ -167,7 +167,27 @@ func c19Run(r *core.Run) {
 			quoteBytes = marshalQuote(q.Proto(0), inform)
 		}
 	}
-	args = append(args, "-in", write("quote."+inform, quoteBytes), "-inform", inform)
+	quotePath := write("quote."+inform, quoteBytes)
+	viaStdin := t.Chance(1, 4)
+	if viaStdin {
+		if t.Bool() {
+			args = append(args, "-in", "-", "-inform", inform) // "-" is the documented name of stdin
+		} else {
+			args = append(args, "-inform="+inform) // -in defaults to stdin
+		}
+		r.Probe("quote_on_stdin")
+	} else {
+		args = append(args, "-in", quotePath, "-inform", inform)
+	}
+	// output flags never change the verdict
+	switch t.Draw(6) {
+	case 0:
+		args = append(args, "-quiet")
+	case 1:
+		args = append(args, "-verbosity=1")
+	case 2:
+		args = append(args, "--verbosity", "2")
+	}
 	note("quote=%s/%s", quoteKind, inform)
 
 	// ---- root of trust and options: config and flags
@@ -635,6 +655,9 @@ func c19Run(r *core.Run) {
 	cmd := exec.Command(bin, args...)
 	cmd.Dir = dir
 	cmd.Env = env
+	if viaStdin {
+		cmd.Stdin = bytes.NewReader(quoteBytes)
+	}
 	var stderr, stdout bytes.Buffer
 	cmd.Stderr, cmd.Stdout = &stderr, &stdout
 	done := make(chan error, 1)
@@ -795,6 +818,6 @@ func init() {
 			return 2500
 		},
 		Run:       c19Run,
-		MustProbe: []string{"exit_0", "exit_3", "exit_4", "flag_overrides_config_field", "config_sub_policy_absent"},
+		MustProbe: []string{"exit_0", "exit_3", "exit_4", "flag_overrides_config_field", "config_sub_policy_absent", "quote_on_stdin"},
 	})
 }
